@@ -173,7 +173,15 @@ class CallGraph:
             elif k == "ext":
                 s.ext.append(a[1])
             elif k == "bmeth":
-                s.ext.append("%s.%s" % (a[1][0], a[2]))
+                pyt = {"str": str, "list": list, "dict": dict, "set": set, "tuple": tuple, "int": int,
+                       "float": float}.get(a[1][0])
+                if pyt is not None and not hasattr(pyt, a[2]) and a[2] in self.db.method_index:
+                    # type noise: the receiver cannot be that builtin; fall back to the package methods
+                    for g in self.db.method_index[a[2]]:
+                        if not g.is_property and g not in s.callees:
+                            s.callees.append(g)
+                else:
+                    s.ext.append("%s.%s" % (a[1][0], a[2]))
             elif k == "none":
                 pass
             elif k == "any":
